@@ -10,8 +10,15 @@ import (
 // rt <layer> <hex>: decode, serialise the decoded value over its payload,
 // decode the result again.  Output: ok <re-serialised hex> <first decode> || <second decode>
 func init() {
-	register("rt", func(w []string) string {
-		name, data := w[1], unhex(w[2])
+	// rtp <layer> <prior hex> <hex>: the same, but both decodes go into a value that has decoded <prior>
+	// before (the theorems quantify over the previous contents of the layer)
+	register("rtp", func(w []string) string { return roundTrip(w[1], unhex(w[2]), unhex(w[3])) })
+	register("rt", func(w []string) string { return roundTrip(w[1], nil, unhex(w[2])) })
+	_ = ipmi.LayerTypeMessage
+}
+
+func roundTrip(name string, prior, data []byte) string {
+	{
 		run := guarded
 		if strings.HasPrefix(name, "aes") {
 			// the re-serialisation draws a random IV: a single run on an exact-capacity copy
@@ -30,6 +37,9 @@ func init() {
 			parts := strings.Split(name, ":")
 			spec := layerSpecs[parts[0]]
 			l := spec.mk(parts[1:])
+			if prior != nil {
+				_ = l.DecodeFromBytes(append([]byte{}, prior...), gopacket.NilDecodeFeedback)
+			}
 			in := append([]byte{}, d...)
 			if err := l.DecodeFromBytes(in, gopacket.NilDecodeFeedback); err != nil {
 				return "err"
@@ -49,11 +59,13 @@ func init() {
 			}
 			out := append([]byte{}, buf.Bytes()...)
 			l2 := spec.mk(parts[1:])
+			if prior != nil {
+				_ = l2.DecodeFromBytes(append([]byte{}, prior...), gopacket.NilDecodeFeedback)
+			}
 			if err := l2.DecodeFromBytes(append([]byte{}, out...), gopacket.NilDecodeFeedback); err != nil {
 				return "ok " + tohex(out) + " " + first + " || err"
 			}
 			return "ok " + tohex(out) + " " + first + " || " + showLayer(l2, spec.payload)
 		})
-	})
-	_ = ipmi.LayerTypeMessage
+	}
 }
